@@ -286,7 +286,13 @@ class Sim:
             return create_pytask(coro)
         if k == "prio":
             from asynkit.experimental.priority import PriorityTask
-            t = PriorityTask(coro, loop=self.loop, priority=float(fr(how[1])))
+            pv = float(fr(how[1]))
+            if len(how) > 2 and how[2] == "enum":
+                from asynkit.experimental.priority import Priority
+                pv = {10.0: Priority.LOW, 0.0: Priority.NORMAL, -10.0: Priority.HIGH}.get(pv, pv)
+            elif len(how) > 2 and how[2] == "int" and pv == int(pv):
+                pv = int(pv)
+            t = PriorityTask(coro, loop=self.loop, priority=pv)
             self.w.reg_task(t)
             self.w.reg_future(t)
             return t
